@@ -68,6 +68,21 @@ CHECKS = {
          "Trusts baseapp's height-bound query contexts and sync primitives; no schedule is explored, no race detector is run."),
 }
 
+# clauses added after the fourth seeding round: (technique suffix, text suffix)
+EXTRA = {
+ "C03": ("; loop-fresh decode targets over x/did", " Code that decodes stored documents in a loop (listing, export, migration) uses a fresh target per iteration."),
+ "C07": ("; path-condition audit of the send", " The send is skipped only when the spendable amount is empty or the address parameter does not parse: no other condition stands on the way."),
+ "C08": ("; alias-aware write enumeration on the export call tree; raw-input flow in hand-written JSON decoders", " Nothing on an ExportGenesis call tree writes memory that outlives the call (also through struct copies of package variables that share maps); hand-written UnmarshalJSON methods take values only from the JSON library."),
+ "C09": ("; type walk for protobuf maps at binary-marshal sites; context-free calls on held foreign objects; non-persistent store keys", " No binary encoding of a map-carrying message, no Context-less call on an object implemented outside the module other than the reviewed codecs/subspace table, and no memory/transient store in block processing."),
+ "C10": ("; context-free calls on held foreign objects", " Objects implemented outside the module are consulted with a Context (reviewed exceptions: codecs, params subspace table)."),
+ "C12": ("; loop-fresh decode targets over x/pnft", " Listings decode each token's metadata into a fresh variable."),
+ "C14": ("; definite-write analysis of message entry points (receiver-reachable memory)", " ValidateBasic/GetSigners/GetSignBytes/Route/Type perform no definite write into memory reachable from the message (stores, map updates, append onto re-sliced message slices, in-place sorts, through module callees)."),
+ "C15": ("; enumeration of Ante/PostDecorator implementers; write enumeration on handler call trees", " Every module type that can sit in an ante or post-handler chain moves no coins; handlers write no package variable or long-lived field (such writes survive a failed message)."),
+ "C16": ("; who-may-call of the SDK address configuration", " No custom address verifier is installed and the account prefix is the constant panacea (the SDK's own format check defines a well-formed address)."),
+ "C19": ("; dominance in InitChainer", " InitChainer stores the module manager's version map through the upgrade keeper before the modules' InitGenesis."),
+ "C20": ("; non-persistent store keys", " The module's keepers receive no memory/transient store key (such stores are not versioned by query height)."),
+}
+
 PENDING_REASON = "check not built yet in this round (planned per DESIGN.md section 4); no claim is made until the checker rule exists"
 
 def main():
@@ -77,6 +92,8 @@ def main():
         pid = p["id"]
         if pid in CHECKS:
             tech, text, note = CHECKS[pid]
+            if pid in EXTRA:
+                tech, text = tech + EXTRA[pid][0], text + EXTRA[pid][1]
             checks.append({
                 "property_id": pid,
                 "quick_cmd": f"tools/pverif check {pid} --tier quick",
